@@ -88,4 +88,61 @@ def closestOnMesh (p : P) (ts : List Tri) : Option (Nat × P × Rat) :=
     | none => some (ti.2, q, d)
     | some b => if d < b.2.2 then some (ti.2, q, d) else some b) none
 
+/-! ### broad phase: `ray_bounds`, `ray_triangle_candidates` (r-tree of triangle boxes) -/
+
+abbrev Box := P × P
+
+def get (p : P) (k : Nat) : Rat := match k with | 0 => p.1 | 1 => p.2.1 | _ => p.2.2
+def absR (x : Rat) : Rat := if x < 0 then -x else x
+def pmin (a b : P) : P := (min a.1 b.1, min a.2.1 b.2.1, min a.2.2 b.2.2)
+def pmax (a b : P) : P := (max a.1 b.1, max a.2.1 b.2.1, max a.2.2 b.2.2)
+
+/-- `np.abs(ray_directions).argmax(axis=1)`: first index of the largest magnitude -/
+def argmaxAbs (d : P) : Nat :=
+  if absR d.2.1 ≤ absR d.1 ∧ absR d.2.2 ≤ absR d.1 then 0
+  else if absR d.2.2 ≤ absR d.2.1 then 1 else 2
+
+/-- `t[t < buffer_dist] = buffer_dist` -/
+def clampLo (buf t : Rat) : Rat := if t < buf then buf else t
+
+/-- `ray_bounds` for one ray: the box around the piece of the ray between the two planes of the tree
+    bounds perpendicular to the dominant axis, clamped to start at `buffer_dist` and padded by it -/
+def rayBounds (o d : P) (tb : Box) (buf : Rat) : Box :=
+  let a := argmaxAbs d
+  let da := get d a
+  let t0 := if da = 0 then 0 else (get tb.1 a - get o a) / da
+  let t1 := if da = 0 then 0 else (get tb.2 a - get o a) / da
+  let pa := add (smul (clampLo buf t0) d) o
+  let pb := add (smul (clampLo buf t1) d) o
+  (sub (pmin pa pb) (buf, buf, buf), add (pmax pa pb) (buf, buf, buf))
+
+/-- axis-aligned box of a triangle (what `bounds_tree` stores) -/
+def triBox (t : Tri) : Box := (pmin t.1 (pmin t.2.1 t.2.2), pmax t.1 (pmax t.2.1 t.2.2))
+
+/-- bounds of the whole tree (`tree.bounds`) -/
+def treeBounds : List Tri → Box
+  | [] => ((0, 0, 0), (0, 0, 0))
+  | t :: ts => ts.foldl (fun b t' => (pmin b.1 (triBox t').1, pmax b.2 (triBox t').2)) (triBox t)
+
+/-- closed boxes intersect (the contract of `rtree.Index.intersection`) -/
+def boxesMeet (a b : Box) : Bool :=
+  decide (a.1.1 ≤ b.2.1 ∧ b.1.1 ≤ a.2.1 ∧ a.1.2.1 ≤ b.2.2.1 ∧ b.1.2.1 ≤ a.2.2.1 ∧
+          a.1.2.2 ≤ b.2.2.2 ∧ b.1.2.2 ≤ a.2.2.2)
+
+/-- `ray_triangle_candidates` for one ray: indices of the triangles whose box meets the ray's box -/
+def candidates (o d : P) (ts : List Tri) (buf : Rat) : List Nat :=
+  let rb := rayBounds o d (treeBounds ts) buf
+  (ts.zipIdx.filter (fun ti => boxesMeet rb (triBox ti.1))).map (·.2)
+
+/-- the narrow phase run on the candidates only (what `ray_triangle_id` does) -/
+def rayHitsPruned (o d : P) (ts : List Tri) (buf : Rat) : List (Nat × Rat) :=
+  let rb := rayBounds o d (treeBounds ts) buf
+  (ts.zipIdx.filter (fun ti => boxesMeet rb (triBox ti.1))).filterMap
+    (fun ti => (rayTriangle o d ti.1).map (fun h => (ti.2, h.1)))
+
+/-- `proximity.nearby_faces` for one point: triangles whose box meets the cube of half-width `r` around
+    `p` (`r` = distance to the nearest vertex plus `tol.merge` in the code) -/
+def nearbyFaces (p : P) (r : Rat) (ts : List Tri) : List Nat :=
+  (ts.zipIdx.filter (fun ti => boxesMeet (sub p (r, r, r), add p (r, r, r)) (triBox ti.1))).map (·.2)
+
 end TV.Query
